@@ -139,7 +139,15 @@ Definition gp_ok (k : nat) (x : gor) (p : phase) : bool :=
 
 Definition PC (k : nat) (reqs : list reqstep) (cs : cstate) : Prop :=
   length (c_ph cs) = length (gs (c_lock cs)) /\ length reqs = length (gs (c_lock cs)) /\
-  forall g x p, nth_error (gs (c_lock cs)) g = Some x -> nth_error (c_ph cs) g = Some p -> gp_ok k x p = true.
+  (forall g x p, nth_error (gs (c_lock cs)) g = Some x -> nth_error (c_ph cs) g = Some p -> gp_ok k x p = true) /\
+  Forall (plain_on k) reqs.
+
+(* every request is a plain call of Start carrying the ID whose lock key is k *)
+Lemma PC_plain k reqs cs g r : PC k reqs cs -> nth_error reqs g = Some r -> plain_on k r.
+Proof. intros (_ & _ & _ & H) Hr. rewrite Forall_forall in H. apply H. eapply nth_error_In; exact Hr. Qed.
+
+Lemma plain_lock_key k r jar : plain_on k r -> lock_key (q_cookie (rq_request jar r)) = Some k.
+Proof. intros (_ & k0 & Hp & <-). unfold rq_request. rewrite Hp. reflexivity. Qed.
 
 Lemma upd_length {A} i (x : A) l : length (upd i x l) = length l.
 Proof. revert i; induction l as [|a l IH]; intros [|i]; simpl; auto. Qed.
@@ -165,10 +173,10 @@ Lemma PC_lock k reqs cs l st' :
   (forall g, l = LLeave g -> exists o, nth_error (c_ph cs) g = Some (PDone o)) ->
   PC k reqs (mkC st' (c_st cs) (c_jars cs) (c_ph cs) (c_acts cs)).
 Proof.
-  intros (L1 & L2 & H) Hs Hl. unfold PC. cbn [c_lock c_ph].
+  intros (L1 & L2 & H & HK) Hs Hl. unfold PC. cbn [c_lock c_ph].
   destruct (step_gs _ _ _ Hs) as [[_ E]|(g & x & y & Hg & Hx & E & Hn)]; rewrite E.
   - auto.
-  - rewrite upd_length. split; [exact L1|]. split; [exact L2|].
+  - rewrite upd_length. split; [exact L1|]. split; [exact L2|]. split; [|exact HK].
     intros g' x' p Hx' Hp. rewrite (nth_error_upd _ _ _ _ _ Hx) in Hx'.
     destruct (Nat.eqb g g') eqn:Eg.
     + apply Nat.eqb_eq in Eg. subst g'. injection Hx' as <-.
@@ -183,8 +191,8 @@ Lemma PC_phase k reqs cs g x p p' s' j' a' :
   gp_ok k x p' = true ->
   PC k reqs (mkC (c_lock cs) s' j' (upd g p' (c_ph cs)) a').
 Proof.
-  intros (L1 & L2 & H) Hx Hp Hok. unfold PC. cbn [c_lock c_ph]. rewrite upd_length.
-  split; [exact L1|]. split; [exact L2|].
+  intros (L1 & L2 & H & HK) Hx Hp Hok. unfold PC. cbn [c_lock c_ph]. rewrite upd_length.
+  split; [exact L1|]. split; [exact L2|]. split; [|exact HK].
   intros g' x' q Hx' Hq. rewrite (nth_error_upd _ _ _ _ _ Hp) in Hq.
   destruct (Nat.eqb g g') eqn:Eg.
   - apply Nat.eqb_eq in Eg. subst g'. injection Hq as <-. rewrite Hx in Hx'. injection Hx' as <-. exact Hok.
@@ -202,7 +210,7 @@ Lemma PC_looked_holds k reqs cs g s0 jar f c b :
   PC k reqs cs -> nth_error (c_ph cs) g = Some (PLooked s0 jar f c b) ->
   nth_error (gs (c_lock cs)) g = Some (mkG (GHold k) []).
 Proof.
-  intros (L1 & L2 & H) Hp.
+  intros (L1 & L2 & H & _) Hp.
   destruct (nth_error (gs (c_lock cs)) g) as [x|] eqn:Hx.
   - specialize (H _ _ _ Hx Hp). destruct x as [[] [|o r]]; cbn [gp_ok gc gscript] in H; try discriminate.
     apply Nat.eqb_eq in H. subst. reflexivity.
